@@ -1,7 +1,7 @@
 """C02 - bounded exploration of the real controller (see checks/ctrlx.py) plus proved per-function obligations."""
 from checks import common, ctrl_common
 
-PROVED_TARGETS = []
+PROVED_TARGETS = ['cascade.controller.notify:is_last_output_of', 'cascade.controller.act:act']
 
 
 def run(tier, seed):
